@@ -89,10 +89,13 @@ def run(ck):
                        "paths /a/x, /b/y (pull) and /a/p, /b/p (push); rights from {'', *, /a/*, /b/*, /a/x} x {'', /a/*, /b/p}; u1 varies, adm and u2 are static",
                        "granted = media bytes / 200 / successful RECORD with the stream registered; refused = 401 or 403 (any other outcome is reported as an error and counts as a mismatch)"]
 
+    # the management API (administrative delete / stop, listings, table edits, who may call what)
+    from checks import api_common
+    api_common.api_leg(ck, "C11")
 
 META = {
     "text": "Auth.tla is the reference monitor of the statement over user create/update/delete, login, refresh and expiry; TLC builds the edge cover of its state graph (155 states, 5136 (state, operation) pairs) and emits with every behaviour the decision for every (entry point, user, credential kind, path). The driver replays a seeded sample of the behaviours on the in-process server with authentication on and issues the requests over ten real entry points, comparing granted/refused; a separate leg tries to derive tokens from the session id every RTSP response discloses, further legs join a WSP data socket of a user without rights to the session of a user who is playing (channel ids derived from the attacker's own), open WebSockets on segment-shaped URLs (/streams/{path}/{n}.ts), and fetch paths whose last segment is '..' under a single-level-wildcard right.",
     "note": "Trusted: TLC, Auth.tla as transcription of the statement, the scripted clients in harness/vclient and harness/c11.",
     "technique": "TLA+ reference monitor; TLC edge cover with per-state decision tables replayed against the real server's entry points",
-    "specs": ["auth"],
+    "specs": ["api", "auth"],
 }
